@@ -36,6 +36,7 @@ def run(chk, repo, tier):
     oka = okb_amp = okb_opd = okc_order = okc_bin = okc_int = okd = True
     n_ps = n_amp = n_opd = n_mask = 0
     copy_ok = True
+    bin_unknown = []
     for p in rets:
         cp = p.calls('plane.Plane.copy')
         copy_ok = copy_ok and len(cp) == 1 and cp[0].bound.get('self') == SELF and p.ret == cp[0].result
@@ -53,6 +54,13 @@ def run(chk, repo, tier):
             ps = [nf.index(nf.attr(plane, a), C(k)) for a in ('pixelscale', '_pixelscale') for k in (0, 1)]
             good = isinstance(v, Tup) and len(v) == 2 and v.items[0] in (ps[0] / scale, ps[2] / scale) and \
                 v.items[1] in (ps[1] / scale, ps[3] / scale)
+            va = v.single_atom() if isinstance(v, Poly) else None
+            if not good and va is not None and is_app(va, ('listcomp', 'genexp', 'tuplecomp')) and len(va[2]) == 2:
+                # the same expression mapped over every axis of the old pixel scale
+                body, seq = va[2]
+                its = [a for a in nf.value_atoms(body) if a[0] == 'iter']
+                good = seq in (nf.attr(plane, 'pixelscale'), nf.attr(plane, '_pixelscale')) and len(its) == 1 and \
+                    body == nf.index(seq, Poly.atom(its[0])) / scale
             oka = oka and good
         if 'amplitude' in last:
             n_amp += 1
@@ -76,13 +84,19 @@ def run(chk, repo, tier):
             okc_order = okc_order and bool(calls) and all(bound_of(a).get('order') == C(0) and bound_of(a).get('scale') == scale
                                                           for a in calls)
             final = evs[-1].data['value']
-            r = Ranges().of(final)
+            rg = Ranges()
+            r = rg.of(final)
             fa = final.single_atom() if isinstance(final, Poly) else None
             okc_int = okc_int and fa is not None and is_app(fa, 'm:astype') and fa[2][1] == Const(('builtin', 'int'))
             inner = fa[2][0] if fa is not None and is_app(fa, 'm:astype') else final
             ia = inner.single_atom() if isinstance(inner, Poly) else None
-            okc_bin = okc_bin and ia is not None and is_app(ia, 'setitem') and ia[2][2] == C(1) and \
-                ia[2][1] == nf.app('nonzero', ia[2][0])
+            # value-range argument: whatever the interpolation returned, the stored mask takes values in {0, 1}
+            if r.binary:
+                pass
+            elif [u for u in rg.unknown if 'rescale' not in u and 'listcomp' not in u]:
+                bin_unknown.append(rg.unknown[0])
+            else:
+                okc_bin = False
             sl = last.get('_slice', [])
             okd = okd and bool(sl) and sl[-1].data['value'].single_atom() is not None and \
                 is_app(sl[-1].data['value'].single_atom(), 'call:plane._plane_slice') and \
@@ -92,7 +106,9 @@ def run(chk, repo, tier):
     chk.ob('C17-b', 'D-factor', f.key, 'OPD = rescale(opd, scale) without extra factor', okb_opd and n_opd > 0, '', f.loc())
     chk.ob('C17-c', 'N-sibling', f.key, 'mask rescaled with order 0 in the monolithic and the segmented branch',
            okc_order and n_mask >= 2, f'{n_mask} mask branch(es)', f.loc())
-    chk.ob('C17-c', 'R-binary', f.key, 'mask re-binarised (nonzero -> 1)', okc_bin and n_mask > 0, '', f.loc())
+    chk.ob('C17-c', 'R-binary', f.key, 'mask re-binarised (nonzero -> 1)',
+           (okc_bin and n_mask > 0) if (not bin_unknown or not okc_bin) else None,
+           f'undecided: no range model for {bin_unknown[0]}' if bin_unknown else 'stored mask has value set {0, 1}', f.loc())
     chk.ob('C17-c', 'R-binary', f.key, 'mask cast to int last', okc_int and n_mask > 0, '', f.loc())
     chk.ob('C17-d', 'D-pairing', f.key, 'plane._slice = _plane_slice(final mask)', okd and n_mask > 0, '', f.loc())
     chk.ob('C17-e', 'E-ownership', f.key, 'works on and returns self.copy()', copy_ok, '', f.loc())
